@@ -83,6 +83,8 @@ type Exec struct {
 	inQuant  int
 	idxUses  map[string]map[string]bool
 	lookupAtEnd bool // local-variable lookup sees every definition of the block it is evaluated at
+	lookupLimited bool // ... but only those before instruction index lookupLimit (program-point clauses)
+	lookupLimit   int
 	linking     bool
 	sentAssumed map[string]bool
 	constGlobals map[string]bool
